@@ -28,13 +28,13 @@
 // bound: family = 70 hand-written token sequences (every error kind with several simultaneous instances, LALR-not-SLR, LR(1)-not-LALR, ambiguous,
 //        nullable, unreachable, unproductive, attribute and payload-type shapes, the generator's own helper names as user names) + every grammar
 //        over nonterminals {S, A} and terminals {$X, $Y} whose right-hand sides have length <= 1 (930 files; length <= 2 sampled 1 in 97 in the
-//        quick tier, 1 in 7 in the thorough tier) + 300 pseudo-random files (1 500 thorough, see LALR below) + the example files of the repository. Layouts: 7. get_grammar_hash: every text of <= 4 lines
+//        quick tier, 1 in 3 in the thorough tier) + 300 pseudo-random files (5 000 thorough, see LALR below) + the example files of the repository. Layouts: 7. get_grammar_hash: every text of <= 4 lines
 //        (<= 5 thorough) over a 10-line alphabet, LF and CRLF, with and without final terminator. Compile check: 5 grammar shapes x 34 namings
 //        (one internal name at a time on every user-chosen position, then all at once) + the valid grammars of the family.
 //        Validation: the family + every single renaming `identifier j := identifier i` and every first-letter case flip in 8 base files (about 2 000 files with
 //        0..4 simultaneous violations).
-//        LALR: the well-formed files of the family, of the enumeration (right-hand sides <= 1: all; <= 2: 1 in 97, thorough 1 in 7) and 12 textbook grammars
-//        (LALR-not-SLR, LR(1)-not-LALR, dangling else, expression grammars, nullable chains) + 2 500 pseudo-random files (12 000 thorough) over 2..4
+//        LALR: the well-formed files of the family, of the enumeration (right-hand sides <= 1: all; <= 2: 1 in 97, thorough 1 in 3) and 12 textbook grammars
+//        (LALR-not-SLR, LR(1)-not-LALR, dangling else, expression grammars, nullable chains) + 2 500 pseudo-random files (40 000 thorough) over 2..4
 //        nonterminals and 1..3 terminals with right-hand sides of 0..3 symbols (fixed LCG seeded with VERIF_SEED); the ill-formed ones are skipped.
 //        Emitted types: the accepted files of the family + 9 payload type expressions (unit, paths, generics nested <= 3) on 3 use sites + 8 attribute
 //        texts (non-ASCII, the three bracket kinds nested, 300 deep, quotes) on struct / enum / terminal declarations, 0..3 per declaration.
@@ -224,8 +224,8 @@ mod __vx_leafcheck {
         let mut out: Vec<String> = compact_family().iter().map(|c| render(&tokens(c), 0).0).collect();
         out.extend(RAW.iter().map(|s| s.to_string()));
         out.extend(enumerated(1, 1).iter().map(|c| render(&tokens(c), 0).0));
-        out.extend(enumerated(2, if thorough() { 7 } else { 97 }).iter().map(|c| render(&tokens(c), 0).0));
-        out.extend(random_grammars(if thorough() { 1500 } else { 300 }).iter().map(|c| render(&tokens(c), 0).0));
+        out.extend(enumerated(2, if thorough() { 3 } else { 97 }).iter().map(|c| render(&tokens(c), 0).0));
+        out.extend(random_grammars(if thorough() { 5000 } else { 300 }).iter().map(|c| render(&tokens(c), 0).0));
         out.extend(example_files());
         out
     }
@@ -890,9 +890,49 @@ mod __vx_leafcheck {
         let mut n = 0usize;
         for toks in types_family() {
             let text = render(&toks, 1).0;
-            let Some(Ok(out)) = run(&text) else { continue };
-            let Some((start, want)) = expected_items(&toks) else { panic!("the family holds a file this module cannot read: {}", text) };
             let leaf = format!("generate(emitted-{})", which.replace(' ', "-"));
+            let out = match run(&text) {
+                Some(Ok(out)) => out,
+                rejected => {
+                    // the file is not accepted. It counts against this property only if the part the property is about is to blame: the same file
+                    // without its attributes (C12) / with every payload type replaced by `()` (C13) is accepted
+                    let simpler: Option<Vec<String>> = match which {
+                        "attributes" => Some(toks.iter().filter(|t| !t.starts_with("#[")).cloned().collect()),
+                        "payload types" => {
+                            let mut out = vec![];
+                            let mut k = 0;
+                            let mut in_terminal = false;
+                            while k < toks.len() {
+                                if toks[k] == "terminal" { in_terminal = true; }
+                                if in_terminal && toks[k].starts_with('$') && toks.get(k + 1).map_or(false, |c| c == ":") {
+                                    out.extend([toks[k].clone(), ":".to_string(), "(".to_string(), ")".to_string()]);
+                                    k += 2;
+                                    let mut depth = 0i32;
+                                    while k < toks.len() && !(depth == 0 && (toks[k].starts_with('$') || toks[k] == "}")) {
+                                        match toks[k].as_str() { "<" | "(" => depth += 1, ">" | ")" => depth -= 1, _ => {} }
+                                        k += 1;
+                                    }
+                                    continue;
+                                }
+                                out.push(toks[k].clone());
+                                k += 1;
+                            }
+                            Some(out)
+                        }
+                        _ => None,
+                    };
+                    if let Some(simpler) = simpler {
+                        if simpler != toks && matches!(run(&render(&simpler, 1).0), Some(Ok(_))) {
+                            let got = match rejected { Some(Err(e)) => format!("Err({:?})", e).chars().take(160).collect::<String>(), _ => "panic".to_string() };
+                            println!("LEAFCHECK-FAIL leaf={} input={} got={} want=accepted and reproduced: the same file {} is accepted", leaf, brief(&text), got,
+                                if which == "attributes" { "without its attributes" } else { "with `()` for every payload type" });
+                            panic!("a file is rejected because of its {}", which);
+                        }
+                    }
+                    continue;
+                }
+            };
+            let Some((start, want)) = expected_items(&toks) else { panic!("the family holds a file this module cannot read: {}", text) };
             let Some((got, sig)) = emitted_items(&out.0) else {
                 // no verdict: the layout of the emitted text is not what this reader knows (no LEAFCHECK-FAIL line, the runner reports the check as undecided)
                 panic!("{}: type section of the emitted text cannot be read back for {}", leaf, brief(&text));
@@ -1319,8 +1359,8 @@ mod __vx_leafcheck {
         let mut fam: Vec<String> = VALID.iter().chain(CONFLICTING).chain(TEXTBOOK).map(|s| s.to_string()).collect();
         fam.extend(SHAPES.iter().map(|s| instantiate(s, &du, &dl)));
         fam.extend(enumerated(1, 1));
-        fam.extend(enumerated(2, if thorough() { 7 } else { 97 }));
-        fam.extend(random_grammars(if thorough() { 12000 } else { 2500 }));
+        fam.extend(enumerated(2, if thorough() { 3 } else { 97 }));
+        fam.extend(random_grammars(if thorough() { 40000 } else { 2500 }));
         fam.iter().map(|c| tokens(c)).collect()
     }
     /// pseudo-random files over nonterminals N0..N3 (any of them the start symbol; struct or enum of 0..3 variants; right-hand sides of 0..3 symbols as tuple or named fieldsets with used and `_` fields, biased
